@@ -527,4 +527,184 @@ theorem answerOk_pluginStep (cap : CapFn) (st : State Key) (p : PReq) :
     · rw [pluginStep_limited cap st _ _ _ key wd hres hw]
       by_cases hp : (stepL cap st ⟨key, p.t, wd⟩).2.pass = true <;> simp [hp]
 
+/-! ### the Spec depends on the keys only through the partition they induce -/
+
+section
+variable {κ κ' : Type} [DecidableEq κ] [DecidableEq κ']
+
+theorem passesInWin_map_rekey (f : κ → κ') (W idx : Nat) (l : List (Event κ)) :
+    passesInWin W idx (l.map (rekey f)) = passesInWin W idx l := by
+  induction l with
+  | nil => rfl
+  | cons e rest ih => simp [passesInWin, rekey, ih]
+
+theorem regimeW_map_rekey (f : κ → κ') (W : Nat) (l : List (Event κ)) :
+    regimeW W (l.map (rekey f)) = (regimeW W l).map (rekey f) := by
+  induction l with
+  | nil => rfl
+  | cons e rest ih =>
+    by_cases h : e.wd.W = W
+    · rw [List.map_cons, regimeW_cons_same _ _ _ (by simpa [rekey] using h), regimeW_cons_same _ _ _ h,
+        List.map_cons, ih]
+    · rw [List.map_cons, regimeW_cons_diff _ _ _ (by simpa [rekey] using h), regimeW_cons_diff _ _ _ h]
+      rfl
+
+theorem refSpill_map_rekey (f : κ → κ') (l : List (Event κ)) :
+    refSpill (l.map (rekey f)) = refSpill l := by
+  induction l with
+  | nil => rfl
+  | cons e rest ih =>
+    cases rest with
+    | nil => simp [refSpill]
+    | cons p rest' =>
+      have ih' : refSpill (rekey f p :: List.map (rekey f) rest') = refSpill (p :: rest') := by
+        simpa using ih
+      have hreg : regimeW e.wd.W (rekey f p :: List.map (rekey f) rest')
+          = (regimeW e.wd.W (p :: rest')).map (rekey f) := by
+        simpa using regimeW_map_rekey f e.wd.W (p :: rest')
+      have he : (rekey f e).wd = e.wd ∧ (rekey f e).t = e.t := ⟨rfl, rfl⟩
+      have hp : (rekey f p).wd = p.wd ∧ (rekey f p).t = p.t := ⟨rfl, rfl⟩
+      simp only [List.map_cons]
+      rw [refSpill_cons_cons, refSpill_cons_cons, ih']
+      simp only [regime, he.1, he.2, hp.1, hp.2]
+      rw [hreg, passesInWin_map_rekey]
+
+theorem eventOk_rekey (f : κ → κ') (cap : CapFn) (e : Event κ) (older : List (Event κ)) :
+    eventOk cap (rekey f e) (older.map (rekey f)) = eventOk cap e older := by
+  have h1 := refSpill_map_rekey f (e :: older)
+  have he : (rekey f e).wd = e.wd ∧ (rekey f e).t = e.t ∧ (rekey f e).pass = e.pass := ⟨rfl, rfl, rfl⟩
+  simp only [List.map_cons] at h1
+  simp only [eventOk, regime, h1, he.1, he.2.1, he.2.2]
+  rw [regimeW_map_rekey, passesInWin_map_rekey]
+  rfl
+
+theorem holdsKeyRev_map_rekey (f : κ → κ') (cap : CapFn) (l : List (Event κ)) :
+    holdsKeyRev cap (l.map (rekey f)) = holdsKeyRev cap l := by
+  induction l with
+  | nil => rfl
+  | cons e rest ih => simp only [List.map_cons, holdsKeyRev, eventOk_rekey, ih]
+
+/-- `holds` with the events grouped by `f key` instead of `key` -/
+def holdsOn (f : κ → κ') (cap : CapFn) (h : List (Event κ)) : Bool :=
+  h.all fun e => holdsKeyRev cap ((h.filter (fun x => f x.key == f e.key)).reverse)
+
+theorem holds_map_rekey (f : κ → κ') (cap : CapFn) (h : List (Event κ)) :
+    holds cap (h.map (rekey f)) = holdsOn f cap h := by
+  simp only [holds, holdsOn, List.all_map, keyHist]
+  congr 1
+  funext e
+  simp only [Function.comp]
+  have : (h.map (rekey f)).filter (fun x => x.key == (rekey f e).key)
+      = (h.filter (fun x => f x.key == f e.key)).map (rekey f) := by
+    rw [List.filter_map]
+    rfl
+  rw [this, ← List.map_reverse, holdsKeyRev_map_rekey]
+
+theorem holdsOn_congr {κ'' : Type} [DecidableEq κ''] (f : κ → κ') (g : κ → κ'') (cap : CapFn) (h : List (Event κ))
+    (hfg : ∀ a ∈ h, ∀ b ∈ h, (f a.key == f b.key) = (g a.key == g b.key)) :
+    holdsOn f cap h = holdsOn g cap h := by
+  have key : ∀ e ∈ h, h.filter (fun x => f x.key == f e.key) = h.filter (fun x => g x.key == g e.key) :=
+    fun e he => List.filter_congr (fun x hx => hfg x hx e he)
+  rw [Bool.eq_iff_iff]
+  simp only [holdsOn, List.all_eq_true]
+  constructor
+  · intro H e he; rw [← key e he]; exact H e he
+  · intro H e he; rw [key e he]; exact H e he
+
+end
+
+theorem observeP_code (ps : List PReq) : ∀ as : List Answer,
+    (observeP ps as).map (rekey (·.code)) = observe ps as := by
+  induction ps with
+  | nil => intro as; rfl
+  | cons p ps ih =>
+    intro as
+    cases as with
+    | nil => rfl
+    | cons a as =>
+      simp only [observeP, observe, observe1P, List.map_append, ih]
+      congr 1
+      cases observe1 p a <;> simp [rekey]
+
+/-! ### the integer cap of the code is the exact rational cap (fix F09b) -/
+
+theorem ratioUnits_of_dvd (n d k : Nat) (hd : 0 < d) (hk : n * 1000000 = d * k) :
+    ratioUnits (.pct n d) = (k : Int) := by
+  have hd0 : d ≠ 0 := by omega
+  simp only [ratioUnits, hd0, if_false]
+  congr 1
+  have h1 : 2 * n * 1000000 + d = (2 * d) * k + d := by
+    have : 2 * n * 1000000 = 2 * (n * 1000000) := Nat.mul_assoc 2 n 1000000
+    rw [this, hk, Nat.mul_assoc]
+  rw [h1, Nat.mul_add_div (by omega : 0 < 2 * d), Nat.div_eq_of_lt (by omega : d < 2 * d)]
+  omega
+
+theorem capUnits_eq_capExact (total : Int) (r : Ratio) (h6 : sixDecimals r = true) :
+    capUnits total r = capExact total r := by
+  cases r with
+  | one =>
+    simp only [capUnits, capExact, ratioUnits]
+    rw [← Int.neg_mul, Int.mul_ediv_cancel _ (by omega : (100000000 : Int) ≠ 0), Int.neg_neg]
+  | pct n d =>
+    simp only [sixDecimals, Bool.and_eq_true, bne_iff_ne, ne_eq, beq_iff_eq] at h6
+    obtain ⟨hd0, hmod⟩ := h6
+    have hd : 0 < d := by omega
+    obtain ⟨k, hk⟩ : ∃ k, n * 1000000 = d * k :=
+      ⟨n * 1000000 / d, (Nat.mul_div_cancel' (Nat.dvd_of_mod_eq_zero hmod)).symm⟩
+    simp only [capUnits, capExact, ratioUnits_of_dvd n d k hd hk]
+    congr 1
+    -- (-(total·n)) / (d·100) = (-(total·k)) / 10^8, via  ·10^6  and cancelling d
+    have hkI : (n : Int) * 1000000 = (d : Int) * (k : Int) := by
+      have h := congrArg (Nat.cast : Nat → Int) hk
+      rw [Int.natCast_mul, Int.natCast_mul] at h
+      exact h
+    have hdI : (0 : Int) < (d : Int) := Int.natCast_pos.mpr hd
+    have e1 : (-(total * (n : Int))) / ((d : Int) * 100)
+        = ((-(total * (n : Int))) * 1000000) / (((d : Int) * 100) * 1000000) := by
+      rw [Int.mul_ediv_mul_of_pos_left _ _ (by omega : (0 : Int) < 1000000)]
+    have e2 : (-(total * (n : Int))) * 1000000 = (-(total * (k : Int))) * (d : Int) := by
+      have : total * (n : Int) * 1000000 = total * ((n : Int) * 1000000) := by
+        rw [Int.mul_assoc]
+      rw [Int.neg_mul, this, hkI, Int.neg_mul]
+      congr 1
+      rw [Int.mul_comm (d : Int) (k : Int), Int.mul_assoc]
+    have e3 : ((d : Int) * 100) * 1000000 = 100000000 * (d : Int) := by
+      rw [Int.mul_assoc, Int.mul_comm]
+      rfl
+    rw [e1, e2, e3, Int.mul_ediv_mul_of_pos_left _ _ hdI]
+
+section
+variable {κ : Type} [DecidableEq κ]
+
+theorem eventOk_congr_cap (c₁ c₂ : CapFn) (e : Event κ) (older : List (Event κ))
+    (h : ∀ total, c₁ total e.wd.ratio = c₂ total e.wd.ratio) :
+    eventOk c₁ e older = eventOk c₂ e older := by
+  simp only [eventOk, h]
+
+theorem holdsKeyRev_congr_cap (c₁ c₂ : CapFn) (l : List (Event κ))
+    (h : ∀ e ∈ l, ∀ total, c₁ total e.wd.ratio = c₂ total e.wd.ratio) :
+    holdsKeyRev c₁ l = holdsKeyRev c₂ l := by
+  induction l with
+  | nil => rfl
+  | cons e rest ih =>
+    simp only [holdsKeyRev]
+    rw [eventOk_congr_cap c₁ c₂ e rest (h e (by simp)), ih (fun x hx => h x (by simp [hx]))]
+
+theorem holds_congr_cap (c₁ c₂ : CapFn) (h : List (Event κ))
+    (hc : ∀ e ∈ h, ∀ total, c₁ total e.wd.ratio = c₂ total e.wd.ratio) :
+    holds c₁ h = holds c₂ h := by
+  have key : ∀ e ∈ h, holdsKeyRev c₁ (keyHist e.key h) = holdsKeyRev c₂ (keyHist e.key h) := by
+    intro e _
+    apply holdsKeyRev_congr_cap
+    intro x hx
+    simp only [keyHist, List.mem_reverse, List.mem_filter] at hx
+    exact hc x hx.1
+  rw [Bool.eq_iff_iff]
+  simp only [holds, List.all_eq_true]
+  constructor
+  · intro H e he; rw [← key e he]; exact H e he
+  · intro H e he; rw [key e he]; exact H e he
+
+end
+
 end LunarVerif.C09
